@@ -458,3 +458,33 @@ Definition spec_decide (r : request) : option clause :=
 
 (* the documented outcome class, for the harness: exception of the first violated clause *)
 Definition spec_outcome (r : request) : option exc := option_map exc_of (spec_decide r).
+
+(* ------------------------------------------------------------------ 6. documented bodies (wave 2)
+   What the members of stichwort::ParametersSet / Parameter are documented to do, in the statement
+   language of Validate_Model.v (read from the comments and the shipped code of parameter.hpp):
+     check()            throws multiple_parameter_error iff some name was added twice
+     checkTypes(ref)    throws wrong_parameter_type_error iff a name that ref knows holds another type
+     add(p)             records the name as a duplicate if it is present, then stores p under its name
+     merge(pg)          copies the entries of pg whose names are absent; never overwrites
+     operator[](name)   the stored parameter, else missed_parameter_error
+     (a, b) / (s, p) / (ParametersSet)a   built by add() alone, left to right *)
+Definition doc_container : container :=
+  {| ct_check := CsIf (CcNot CcDupsEmpty) (CsThrow SwMultiple) CsSkip;
+     ct_check_types :=
+       CsForEach WThis (CsIf (CcAnd (CcHas WArg KEach) (CcNot CcSameType)) (CsThrow SwWrongType) CsSkip);
+     ct_add := CsSeq (CsIf (CcHas WThis KParam) (CsPushDup KParam) CsSkip) (CsAssign KParam);
+     ct_merge := CsForEach WArg (CsIf (CcNot (CcHas WThis KEach)) (CsAssign KEach) CsSkip);
+     ct_index := CsIf (CcHas WThis KParam) (CsReturnFound KParam) (CsThrow SwMissed);
+     ct_comma_set := [CallAdd AParam];
+     ct_comma_param := (InitEmpty, [CallAdd AThis; CallAdd AParam]);
+     ct_to_set := (InitEmpty, [CallAdd AThis]) |}.
+
+(* what a use P<ty>(args) of predicate number p means for the value x *)
+Definition use_meaning (n : env) (u : pred_use) (x : Q) : Prop :=
+  match pu_pred u, pu_args u with
+  | 0, [] => (0 < x)%Q                                                       (* Positivity *)
+  | 1, [] => (0 <= x)%Q                                                      (* NonNegativity *)
+  | 2, [l; r] => (bound n (pu_ty u) l <= x /\ x < bound n (pu_ty u) r)%Q     (* InRange *)
+  | 3, [l; r] => (bound n (pu_ty u) l <= x /\ x <= bound n (pu_ty u) r)%Q    (* InClosedRange *)
+  | _, _ => False
+  end.
